@@ -24,4 +24,36 @@ def build(repo, tier):
     units.append(Unit('C11/py/Instantiate.simplify', verify_unit(repo, cs, f, c, arm='Instantiate')))
     targets['C11/py/Instantiate.simplify'] = FnTarget(PM, 'Instantiate.simplify', c, arm='Instantiate', enum=arm_enum('Instantiate', []))
     fns.append((PFILE, 'Instantiate.simplify'))
-    return PropSpec('C11', units, LIB, targets, trusted=TRUSTED_ENGINE, assumptions=PY_ASSUMPTIONS, functions=fns)
+    # ---- the checker's counterparts (rust/src/lib.rs): the three functions against the document's substitution / instantiation, and the opcode
+    # arms that call them from an ARBITRARY loop state (so that nothing carried over from an earlier instruction can reach the result)
+    from vc.rsfe import RsProgram
+    from vc.reflect import reflect_rs_bool_methods, rs_judgement_contracts
+    from vc.rscontract import verify_rs_unit
+    from vc.speclemmas import PY_SIDE
+    from contracts.rust_subst import inst_contracts
+    from contracts.sm_contracts import step_unit, equivalence_lemmas, ReadVecContract, TakeLoop
+    from .c05 import RS_ASSUMPTIONS, RFILE
+    prog = RsProgram(repo.root)
+    rsf = reflect_rs_bool_methods(prog, ['e_fresh', 's_fresh', 'positive', 'negative'])
+    rcs, hof, preds = inst_contracts(rsf)
+    rcs.update(rs_judgement_contracts(rsf))
+    rcs['read_u8_vec'] = ReadVecContract()
+    lib = dict(LIB)
+    for l in equivalence_lemmas(rsf, preds):
+        lib[l.name] = l
+    units = lemma_units(lib) + [u for u in units if u.kind != 'lemma']
+    rs_units = []
+    for cn in CTORS:
+        rs_units.append(Unit(f'C11/rs/instantiate_internal/arm={cn}',
+                             verify_rs_unit(prog, rcs, 'instantiate_internal', rcs['instantiate_internal'], arm=cn, arm_param='p', opts={'hof': hof})))
+        for fn in ('apply_esubst', 'apply_ssubst'):
+            rs_units.append(Unit(f'C11/rs/{fn}/arm={cn}', verify_rs_unit(prog, rcs, fn, rcs[fn], arm=cn, arm_param='pattern')))
+    loops = {('execute_instructions', 'take.for_each'): TakeLoop()}
+    for op in ('Instantiate', 'ESubst', 'SSubst'):
+        rs_units.append(Unit(f'C11/rs/step/{op}/Proof', step_unit(prog, rcs, op, 'Proof', opts={'hof': hof, 'loops': loops}), info={'split_depth': 2, 'op': op, 'phase': 'Proof'}))
+    for u in rs_units:
+        u.info['lib_exclude'] = tuple(PY_SIDE)          # python-side list lemmas only multiply instances in the checker-side proofs
+    units += rs_units
+    fns += [(RFILE, f) for f in ('instantiate_internal', 'apply_esubst', 'apply_ssubst', 'execute_instructions (arms Instantiate, ESubst, SSubst)')]
+    return PropSpec('C11', units, lib, targets, trusted=TRUSTED_ENGINE + ['rust front end /verif/vc/rsparse.py + rsfe.py; reflection of e_fresh/s_fresh/positive/negative (vc/reflect.py)'],
+                    assumptions=PY_ASSUMPTIONS + RS_ASSUMPTIONS, functions=fns)
